@@ -124,7 +124,9 @@ def run_property(modname: str, tier: str = "quick", write_baseline=False) -> int
             continue
         seen_fail.add(key)
         confirmed, observation = False, None
-        if replayer is not None and (o.witness is not None or getattr(m, "REPLAY_WITHOUT_WITNESS", False)) \
+        listed = any(k.get("status", "known") == "known" and k["obligation"] == o.name and
+                     (not k.get("path_sigs") or o.path_sig in k["path_sigs"]) for k in known)
+        if replayer is not None and (o.witness is not None or listed or getattr(m, "REPLAY_WITHOUT_WITNESS", False)) \
                 and "concretiser_error" not in (o.witness if isinstance(o.witness, dict) else {}):
             try:
                 import contextlib
